@@ -268,16 +268,22 @@ def run_batch(prog):
                 sibling.remove_parameter(grid[0][0])
         exc = None
         res = []
+        shapes = []
+        sel = "str"
         try:
             kw = {} if limit >= BIG else {"max_timesteps": limit}
-            r = batch_run(BatchModel, params, collectors=["c1", "c2"] if two else "c1", processes=procs, repetitions=reps, **kw)
+            # collector selection: one name / a list holding that one name / a list of two names
+            sel = "list1" if two == "one_list" else ("list2" if two else "str")
+            r = batch_run(BatchModel, params, collectors={"str": "c1", "list1": ["c1"], "list2": ["c1", "c2"]}[sel],
+                          processes=procs, repetitions=reps, **kw)
             res = [_norm_run(x) for x in r]
+            shapes = ["dict" if isinstance(x, dict) else ("list" if isinstance(x, list) else type(x).__name__) for x in r]
         except Exception as e:  # noqa: BLE001
             exc = e
         finally:
             FAILSTOP = -1
-        events.append({"op": "batch_run", "grid": [[n, list(v)] for n, v in grid], "reps": reps, "limit": limit, "two": bool(two),
-                       "procs": procs, "failstop": failstop, "out": outcome(exc), "res": res})
+        events.append({"op": "batch_run", "grid": [[n, list(v)] for n, v in grid], "reps": reps, "limit": limit, "two": two is True or two == 1,
+                       "sel": sel, "shapes": shapes, "procs": procs, "failstop": failstop, "out": outcome(exc), "res": res})
     return events
 
 
@@ -308,7 +314,7 @@ def random_batch_program(rng, procs_choices, fail=None):
         failstop = rng.choice(stops) if rng.random() < 0.25 else -1
     else:
         failstop = fail
-    return [["batch_run", grid, reps, limit, rng.random() < 0.4, rng.choice(procs_choices), failstop]]
+    return [["batch_run", grid, reps, limit, rng.choice([False, False, True, True, "one_list"]), rng.choice(procs_choices), failstop]]
 
 
 def empty_batch_programs(procs_choices):
